@@ -362,6 +362,59 @@ def check_case(ctx, c, local_tz=None):
     ctx.sample({"kind": c["kind"], "string": s, "settings": {k: v for k, v in st.items()}, "result": iso(r)}, limit=3)
 
 
+def check_rel_now(ctx, rnd):
+    """Relative phrase that names a zone, no reference time given: the result is the current instant moved by the phrase
+    (bracketed by two harness clock reads), aware, expressed in TO_TIMEZONE / TIMEZONE (the phrase's zone under 'local')."""
+    import dateparser
+
+    A = pick_zone(rnd) if rnd.random() < 0.8 else "local"
+    B = pick_zone(rnd) if rnd.random() < 0.5 else None
+    aware = rnd.choice([True, None])
+    c = {"kind": "rel_strtz", "str_off": rnd.choice(supported_offsets())}
+    if rnd.random() < 0.5:
+        ab = rnd.choice(abbreviations())
+        off = table_offset_of(ab)
+        if off is not None and all(ch.isalpha() and ch.isascii() for ch in ab):
+            c["str_abbr"], c["str_off"] = ab, int(off.total_seconds())
+    n, direction = rnd.choice([1, 2, 5, 30]), rnd.choice(["ago", "in"])
+    unit = rnd.choice(["hours", "minutes"])
+    s = (("%d %s ago" % (n, unit)) if direction == "ago" else ("in %d %s" % (n, unit))) + " " + zone_suffix(c)
+    st = {"TIMEZONE": A}
+    if B is not None:
+        st["TO_TIMEZONE"] = B
+    if aware is not None:
+        st["RETURN_AS_TIMEZONE_AWARE"] = aware
+    delta = timedelta(**{unit: n}) * (-1 if direction == "ago" else 1)
+    t0 = datetime.now(timezone.utc)
+    try:
+        r = dateparser.parse(s, languages=["en"], settings=st)
+    except Exception as e:
+        r = e
+    t1 = datetime.now(timezone.utc)
+    ctx.ran()
+    case = {"kind": "rel_strtz_now", "string": s, "A": A, "B": B, "aware": aware, "str_off": c["str_off"], "str_abbr": c.get("str_abbr")}
+    feats = {"kind": "rel_strtz_now", "aware": aware, "has_B": B is not None, "local": A == "local"}
+    if not isinstance(r, datetime) or r.tzinfo is None:
+        ctx.violation(case, r, "an aware datetime", "tz-setting:awareness" if isinstance(r, datetime) else "tz-setting:no-result", feats)
+        return
+    slack = timedelta(seconds=2)
+    if not (t0 + delta - slack <= r <= t1 + delta + slack):
+        ctx.violation(case, r, {"between": [iso(t0 + delta), iso(t1 + delta)]}, "tz-setting:instant", feats)
+        return
+    target = B if B is not None else A
+    if target == "local":
+        offs = {timedelta(seconds=c["str_off"])}
+    else:
+        offs = set()
+        for _, tz in readings(target):
+            offs.add(r.astimezone(tz).utcoffset())
+    if r.utcoffset() not in offs:
+        ctx.violation(case, r, {"utcoffset_one_of": sorted(str(o) for o in offs)}, "tz-setting:expressed-in-wrong-zone", feats)
+        return
+    ctx.count("on_path:rel_strtz_now")
+    ctx.nontrivial("rel_strtz_now", s, A, B, aware)
+
+
 def run_shard(ctx, desc):
     import dateparser  # noqa
     import pytz
@@ -386,6 +439,8 @@ def run_shard(ctx, desc):
                 seen_a.add(c["A"])
                 seen_b.add(c["B"])
                 check_case(ctx, c)
+                if n % 25 == 0:
+                    check_rel_now(ctx, rnd)
             ctx.count("distinct_A_zones_in_shard", len(seen_a))
             ctx.count("distinct_B_zones_in_shard", len(seen_b))
         else:
@@ -423,6 +478,8 @@ def replay_case(ctx, v):
 
     PathTap.install()
     c = dict(v["case"])
+    if c.get("kind") == "rel_strtz_now":
+        return      # depends on the clock: the harness re-runs the witness's shard (deterministic in seed/tier/shard)
     ltz = c.pop("local_tz", None)
     c.pop("string", None)
     if ltz:
